@@ -18,6 +18,13 @@ Proof.
     rewrite take_app_length, drop_app_length. reflexivity.
 Qed.
 
+Lemma take_k_1 {a} r : take_k 1 (a :: r) = Some ([a], r).
+Proof. reflexivity. Qed.
+Lemma take_k_2 {a b} r : take_k 2 (a :: b :: r) = Some ([a; b], r).
+Proof. reflexivity. Qed.
+Lemma take_k_3 {a b c} r : take_k 3 (a :: b :: c :: r) = Some ([a; b; c], r).
+Proof. reflexivity. Qed.
+
 Definition edns_ok (e : edns) : Prop :=
   e_udp e < 65536 /\ e_ext e < 256 /\ e_ver e < 256 /\ e_flags e < 65536 /\ nopt_ok (e_data e) = true.
 
@@ -26,18 +33,12 @@ Theorem edns_roundtrip e b rest : edns_ok e -> nedns_build e = Some b ->
   nedns_split (b ++ rest) = Ok (e, rest).
 Proof.
   intros (H1 & H2 & H3 & H4 & H5) B. unfold nedns_build in B.
-  destruct (N.ltb_spec 65535 (len (e_data e))) as [|Hl]; [discriminate B|]. inversion B; subst b. clear B.
+  destruct (N.ltb_spec 65535 (len (e_data e))) as [|Hl]; [discriminate B|]. injection B as Eb. subst b.
   change edns_prefix with [0; 0; 41]. change edns_ext_before_version with true. cbv iota.
   unfold nedns_split. change edns_prefix with [0; 0; 41]. change edns_ext_before_version with true.
-  rewrite <- !app_assoc. rewrite (take_k_app 3 [0; 0; 41]) by reflexivity.
+  cbn [app]. rewrite take_k_3.
   cbn [combine forallb fst snd N.eqb Pos.eqb andb negb].
-  unfold edns_fields.
-  rewrite (take_k_app 2 [e_udp e / 256; e_udp e mod 256]) by reflexivity.
-  change ([e_ext e; e_ver e] ++ ?x) with ([e_ext e] ++ [e_ver e] ++ x).
-  rewrite (take_k_app 1 [e_ext e]) by reflexivity.
-  rewrite (take_k_app 1 [e_ver e]) by reflexivity.
-  rewrite (take_k_app 2 [e_flags e / 256; e_flags e mod 256]) by reflexivity.
-  rewrite (take_k_app 2 [len (e_data e) / 256; len (e_data e) mod 256]) by reflexivity.
+  unfold edns_fields. rewrite take_k_2, take_k_1, take_k_1, take_k_2, take_k_2.
   assert (Hsz : be_val [len (e_data e) / 256; len (e_data e) mod 256] = len (e_data e)) by (cbn; lia).
   rewrite Hsz. rewrite (take_k_app (N.to_nat (len (e_data e))) (e_data e)) by (unfold len; lia).
   rewrite H5. destruct e as [u x v f d]; cbn [e_udp e_ext e_ver e_flags e_data] in *.
@@ -56,7 +57,7 @@ Theorem edns_old_view e b : edns_ok e -> nedns_build e = Some b ->
   be_val (firstn 2 (skipn 9 b)) = len (e_data e) /\ skipn 11 b = e_data e.
 Proof.
   intros (H1 & H2 & H3 & H4 & H5) B. unfold nedns_build in B.
-  destruct (N.ltb_spec 65535 (len (e_data e))) as [|Hl]; [discriminate B|]. inversion B; subst b. clear B.
+  destruct (N.ltb_spec 65535 (len (e_data e))) as [|Hl]; [discriminate B|]. injection B as Eb. subst b.
   change edns_prefix with [0; 0; 41]. change edns_ext_before_version with true. cbv iota.
   change old_opt_ext_shift with 24. change old_opt_ver_shift with 16.
   cbn [app firstn skipn be_val fold_left]. rewrite !N.shiftr_div_pow2.
